@@ -126,7 +126,11 @@ func (PoolH) Gen(prop string, seed uint64, tier string) *hx.Case {
 		case 4:
 			add(PoolOp{Op: "saveload"})
 		case 5:
-			add(PoolOp{Op: "rbfstorm", N: r.Range(3, 130)})
+			if r.Chance(0.3) {
+				add(PoolOp{Op: "ranksqueeze", N: r.Range(44, 60)})
+			} else {
+				add(PoolOp{Op: "rbfstorm", N: r.Range(3, 130)})
+			}
 		case 6:
 			add(PoolOp{Op: "rejectresize"})
 		}
@@ -581,6 +585,78 @@ func (p *poolRun) doTx(o *PoolOp) {
 		p.m.SignAll(t, sp, -1, ledger.COk)
 		p.submit(t, "peer")
 		p.out.Probe("non_final_submission", 1)
+	}
+}
+
+// rankSqueeze: one well-paying transaction, then dozens of transactions of equal shape whose fees rise step by step
+// without reaching it - each goes into the sorted list right below the first one, above all its predecessors, so
+// the gap of sort ranks at that position is halved again and again until the list has to be re-indexed - and in the
+// end a child of the two neighbours at the squeezed position (parents first in the listing, whatever the ranks are).
+func (p *poolRun) rankSqueeze(o *PoolOp) {
+	r := hx.NewRng(o.Seed)
+	p.m.R = r
+	height := p.model.Height + 1
+	fixed := p.m.W.Script(ledger.KP2PKH, 0)
+	// coins of one script and one size, so that all the transactions weigh the same: a fan-out transaction, mined first
+	var big *ledger.CoinRef
+	for _, c := range p.m.Spendables(p.model.UTXO(), height, nil) {
+		c := c
+		if !p.poolSpent(c.Op) && c.Coin.Value > 400_000_000 && (big == nil || c.Coin.Value > big.Coin.Value) {
+			big = &c
+		}
+	}
+	if big == nil {
+		return
+	}
+	fan := &ledger.Tx{Ver: 2, In: []ledger.TxIn{{Prev: big.Op, Seq: 0xffffffff}}}
+	for k := 0; k < o.N+4; k++ {
+		fan.Out = append(fan.Out, ledger.TxOut{Value: 5_000_000, Pk: fixed})
+	}
+	fan.Out = append(fan.Out, ledger.TxOut{Value: big.Coin.Value - uint64(o.N+4)*5_000_000 - 10_000, Pk: fixed})
+	p.m.SignAll(fan, []ledger.Coin{big.Coin}, -1, ledger.COk)
+	p.made[fan.ID()] = fan
+	fb := p.assemble([]*ledger.Tx{fan}, "fan-out")
+	if !p.deliverBlock(fb, fmt.Sprintf("op#%d ranksqueeze fan-out block", o.ID)) {
+		return
+	}
+	height = p.model.Height + 1
+	var coins []ledger.CoinRef
+	for k := 0; k < o.N+4; k++ {
+		coins = append(coins, ledger.CoinRef{Op: ledger.OutPoint{Hash: fan.ID(), N: uint32(k)}, Coin: ledger.Coin{Value: 5_000_000, Pk: fixed, Height: height - 1}})
+	}
+	mk := func(c ledger.CoinRef, fee uint64) *ledger.Tx {
+		t := &ledger.Tx{Ver: 2, In: []ledger.TxIn{{Prev: c.Op, Seq: 0xffffffff}}, Out: []ledger.TxOut{{Value: c.Coin.Value - fee, Pk: fixed}}}
+		p.m.SignAll(t, []ledger.Coin{c.Coin}, -1, ledger.COk)
+		return t
+	}
+	top := mk(coins[0], 900_000)
+	_ = height
+	if !p.submit(top, "peer") {
+		return
+	}
+	var last *ledger.Tx
+	n := 0
+	for i := 1; i < len(coins) && n < o.N; i++ {
+		t := mk(coins[i], 100_000+uint64(n)*1000) // (equal weights: a higher fee is a higher rate)
+		if p.submit(t, "peer") {
+			last = t
+			n++
+		}
+	}
+	p.out.Probe("rank_squeeze_insertions", int64(n))
+	if last == nil {
+		return
+	}
+	// the child of the two neighbours: the better one (top) in its first input
+	cin := []ledger.CoinRef{
+		{Op: ledger.OutPoint{Hash: top.ID(), N: 0}, Coin: ledger.Coin{Value: top.Out[0].Value, Pk: fixed, Height: height}},
+		{Op: ledger.OutPoint{Hash: last.ID(), N: 0}, Coin: ledger.Coin{Value: last.Out[0].Value, Pk: fixed, Height: height}},
+	}
+	child := &ledger.Tx{Ver: 2, In: []ledger.TxIn{{Prev: cin[0].Op, Seq: 0xffffffff}, {Prev: cin[1].Op, Seq: 0xffffffff}},
+		Out: []ledger.TxOut{{Value: cin[0].Coin.Value + cin[1].Coin.Value - 600_000, Pk: fixed}}}
+	p.m.SignAll(child, []ledger.Coin{cin[0].Coin, cin[1].Coin}, -1, ledger.COk)
+	if p.submit(child, "peer") {
+		p.out.Probe("rank_squeeze_child_accepted", 1)
 	}
 }
 
@@ -1121,6 +1197,8 @@ func (PoolH) Run(t *testing.T, c *hx.Case) *hx.Outcome {
 				p.qNext = false
 			case "rbfstorm":
 				p.rbfStorm(o)
+			case "ranksqueeze":
+				p.rankSqueeze(o)
 			case "mine":
 				p.doMine(o)
 			case "undo":
